@@ -7,6 +7,7 @@ import (
 	"os"
 	"os/exec"
 	"path/filepath"
+	"regexp"
 	"strings"
 	"sync"
 	"time"
@@ -38,7 +39,12 @@ func (o *Obligation) script(e *Enc, extraAssume string, getValues []string) stri
 	if n > len(e.out) {
 		n = len(e.out)
 	}
-	for _, l := range e.out[:n] {
+	drop := irrelevantAxioms(e.out[:n], append(append([]string{}, o.Extra...), extraAssume, o.Reach, o.Goal))
+	for i, l := range e.out[:n] {
+		if drop[i] {
+			b.WriteString("; (axiom not relevant to this obligation: none of its symbols occurs elsewhere)\n")
+			continue
+		}
 		b.WriteString(l)
 		b.WriteByte('\n')
 	}
@@ -254,4 +260,71 @@ func modelInt(v string) (string, bool) {
 		return n.String(), true
 	}
 	return "", false
+}
+
+var quotedSym = regexp.MustCompile(`\|[^|]*\|`)
+
+// irrelevantAxioms: indices of prelude-axiom assertions (the assert line that follows a "; axiom NAME" comment) none of
+// whose symbols occurs in any other assertion / definition of the script (transitively through the axioms that are kept).
+// Dropping an assumption is sound for every unsat answer; for the cover (vacuity) queries it removes quantified facts
+// about vocabulary the function does not touch, which otherwise keep the solvers from answering sat.
+func irrelevantAxioms(lines []string, rest []string) map[int]bool {
+	symsOf := func(l string) []string {
+		var out []string
+		for _, m := range quotedSym.FindAllString(l, -1) {
+			if strings.HasPrefix(m, "|q!") {
+				continue
+			}
+			out = append(out, m)
+		}
+		return out
+	}
+	used := map[string]bool{}
+	axioms := map[int][]string{}
+	for i, l := range lines {
+		if i > 0 && strings.HasPrefix(lines[i-1], "; axiom ") && strings.HasPrefix(l, "(assert ") {
+			axioms[i] = symsOf(l)
+			continue
+		}
+		if strings.HasPrefix(l, "(assert ") || strings.HasPrefix(l, "(define-fun") {
+			for _, s := range symsOf(l) {
+				used[s] = true
+			}
+		}
+	}
+	for _, l := range rest {
+		for _, s := range symsOf(l) {
+			used[s] = true
+		}
+	}
+	keep := map[int]bool{}
+	for changed := true; changed; {
+		changed = false
+		for i, ss := range axioms {
+			if keep[i] {
+				continue
+			}
+			rel := len(ss) == 0
+			for _, s := range ss {
+				if used[s] {
+					rel = true
+					break
+				}
+			}
+			if rel {
+				keep[i] = true
+				changed = true
+				for _, s := range ss {
+					used[s] = true
+				}
+			}
+		}
+	}
+	drop := map[int]bool{}
+	for i := range axioms {
+		if !keep[i] {
+			drop[i] = true
+		}
+	}
+	return drop
 }
